@@ -221,6 +221,27 @@ class Calc:
             if nm in ("max", "min") and len(e["args"]) == 2:
                 self.clamps.append("%s at line %s" % (nm, e.get("ln")))
                 raise Unsupported("clamp")
+            # a helper of the same crate (`Self::bounded_mean(x.exp())`): read through it - a branch or clamp inside it is a
+            # branch or clamp of the map
+            di = f.get("inst", f.get("def")) if f.get("k") == "Path" else None
+            g = next((h for h in c.fns if h["def"] == di), None) if di is not None else None
+            if g is None and f.get("k") == "Path" and "def" in f:
+                g = next((h for h in c.fns if h["def"] == f["def"]), None)
+            if g is not None and getattr(self, "_depth", 0) < 3:
+                ps = [b for p_ in g["params"] for b in pat_bindings(p_) if b["name"] != "self"]
+                if len(ps) == len(e["args"]):
+                    for y_ in walk(g["body"]):
+                        if y_.get("k") == "If" or (y_.get("k") == "Match" and y_.get("src", "Normal") == "Normal") or (y_.get("k") in ("MethodCall", "Call") and y_.get("name") in ("max", "min", "clamp")):
+                            self.clamps.append("branch in helper `%s` (line %s)" % (g["d"]["name"], y_.get("ln")))
+                            break
+                    env2 = {}
+                    for b, a in zip(ps, e["args"]):
+                        env2[b["local"]] = self.expr(c, a, env)
+                    self._depth = getattr(self, "_depth", 0) + 1
+                    try:
+                        return self.expr(c, g["body"], env2)
+                    finally:
+                        self._depth -= 1
             raise Unsupported("call of %s" % nm)
         if k == "MethodCall":
             nm = e["name"]
